@@ -84,7 +84,7 @@ def ob_decrypt(L, comp, c1c3c2):
 def lengths(tier, comp):
     c1 = 33 if comp else 65
     if tier == "quick":
-        return list(range(0, c1 + 32 + 41))
+        return list(range(0, c1 + 32 + 25))
     return list(range(0, c1 + 32 + 101))
 
 
